@@ -226,8 +226,14 @@ func oracleC14(c *PCase) (f *ev.Failure, st pstats) {
 		switch op.Kind {
 		case "decode":
 			stage = "Decode"
-			in := c.Inputs[op.Input%len(c.Inputs)]
+			in := append([]byte{}, c.Inputs[op.Input%len(c.Inputs)]...)
 			res, err := dec.Decode(in)
+			if c.Mode == 0 {
+				// safe mode: the caller may overwrite / recycle its buffer right away (C10, lazyproto half)
+				for j := range in {
+					in[j] = 0xEE
+				}
+			}
 			if err != nil {
 				return ev.Failf("C14/decode-error", "step %d: Decode of a well-formed input %x failed: %v", i, in, err), st
 			}
